@@ -70,6 +70,12 @@ CLAIMED["C50"] = ("acme", "exploration",
    "The exact exponential back-off schedule is not asserted (documentation and code differ, the property is silent). With several callers the return instant is not asserted because calls can wait on the client's internal locks (observed, outside the property). net/http.Client.Do runs uninstrumented (it starts no goroutine with a custom RoundTripper and no Timeout).",
    "DESIGN.md section 4 H-acme")
 
+CLAIMED["C35"] = ("flow", "exploration",
+   "deterministic simulation of the real mux/channel code against a scripted packet-level peer with seeded schedules; window accounting checked on every packet in event order; liveness at quiescence",
+   "The real connection protocol (mux, channels, window accounting) runs over an in-memory packet connection against a scripted RFC 4254 peer. System A: local data and stderr writers (writes of 0..200000 bytes) face a peer with initial window 0..300 and maximum packet 9..64 that grants window at generated moments: every data packet must respect the peer's maximum packet size, cumulative payload must never exceed the window granted so far (checked on the wire in event order), reassembled streams must equal what was written, a starved writer must proceed once window is granted (quiescence oracle), Write after Close must fail. System B: a compliant sender (data, stderr and extended data with codes > 1, up to several MiB) faces local readers with generated read sizes and pauses: the local side must never tear the connection down with a window violation, bytes read must equal bytes sent, and the sender is never permanently out of window once readers have drained everything (discarded extended data is credited back). Seeded sampling of schedules and scenarios.",
+   "No transport/encryption underneath (packet connection supplied through the verif hook); two real stacks with default windows are exercised by the C31 harness. The TLA+ model mentioned in the property's quantifier is a different technique and not used.",
+   "DESIGN.md section 4 H-flow")
+
 NA = {
  "C01": "pure function of (key, nonce, plaintext, ad): no schedule, clock, peer, stream fault or persisted state for a simulator to own; needs an independent AEAD and input generation (differential testing)",
  "C02": "pure predicate over byte strings; tampering here is input mutation, not an in-flight fault on a stateful stream",
@@ -112,7 +118,7 @@ NA = {
 
 PLANNED = {
   
-  "C34": "H-cauth", "C35": "H-flow", "C36": "H-mux",
+  "C34": "H-cauth",  "C36": "H-mux",
  "C43": "H-agent",   "C51": "H-autocert",
 }
 
